@@ -60,6 +60,7 @@ def setup(threads: int = 2) -> str:
 
 
 _patched = False
+CACHE_READONLY = False
 
 
 def _patch_numba_cache():
@@ -89,7 +90,10 @@ def _patch_numba_cache():
             return False
 
     def save_overload(self, sig, data):
-        if _takes_function(sig):
+        # worker processes never write: numba's index update is a read-modify-write without a lock, and two
+        # processes saving different specialisations at once can make the index point at the other one's
+        # machine code ("can't unbox array from PyObject" on every later load).  Only the (single) parent writes.
+        if CACHE_READONLY or _takes_function(sig):
             return None
         try:
             return orig_save(self, sig, data)
